@@ -1,4 +1,5 @@
 import ComposeVerif.Lemmas.EnvLayers
+import ComposeVerif.Lemmas.EnvLayersDotenv
 import ComposeVerif.Neg.C16
 /-!
 # C16 — service environment and labels are layered with the documented precedence
@@ -166,6 +167,16 @@ theorem bare_line_inherits (look : Look) (pre post : List Line) (k : Key) (hpost
 theorem no_panic (look : Look) (ls : List Line) (out : List (Key × Str)) (e : Err)
     (h : parseLines look ls out = .error e) : e = .parse ∨ e = .template :=
   parseLines_err look ls out e h
+
+/-- **parseLines_is_dotenv_parse.**  The tokenised lines are not an assumption about the dotenv parser: for a file
+    without rejected line whose rendering `KEY=<template text>` / `KEY` is well-formed in C18's line grammar (valid keys,
+    values without quote, white space, `#` or line feed), C18's model of `dotenv.UnmarshalWithLookup` run on the rendered
+    **text** yields exactly what `parseLines` yields on the tokens (C18's `parse_render` + `parseLines_eq_evalFrom`). -/
+theorem parseLines_is_dotenv_parse (look : Look) (ls : List Line) (hb : Line.bad ∉ ls)
+    (hwf : CV.Dotenv.WF (toDotenvLines ls) = true) :
+    ofPOut (CV.Dotenv.parse (CV.Dotenv.render (toDotenvLines ls)) look) = parseLines look ls [] := by
+  rw [CV.Dotenv.parse_render look _ hwf]
+  exact parseLines_eq_evalFrom look ls [] hb
 
 /-! ## labels -/
 
@@ -621,6 +632,14 @@ example : Distinct s0.environment ∧
     .ok ([some (some ['2']), some (some ['b', '1']), some (some ['c']), some none, some (some ['e']),
           some (some ['1']), some (some ['d', '$', '1']), none], []) := by
   decide
+
+/-- hypotheses of `parseLines_is_dotenv_parse`: the example files render to well-formed dotenv text, e.g. `f2` to
+    `A=2⏎D=d⏎G=${A}⏎` -/
+example : Line.bad ∉ f1 ∧ CV.Dotenv.WF (toDotenvLines f1) = true ∧ CV.Dotenv.WF (toDotenvLines f2) = true ∧
+    CV.Dotenv.render (toDotenvLines f2) =
+      ['A', '=', '2', '\n', 'D', '=', 'd', '\n', 'G', '=', '$', '{', 'A', '}', '\n'] := by
+  refine ⟨?_, by decide, by decide, by decide⟩
+  simp [f1]
 
 /-- hypotheses of `later_file_wins` hold: `f2` is the last file, gives `A` a value, `environment` does not mention `A` -/
 example : envContents fs0 s0.envFiles = [f1] ++ f2 :: [] ∧ lookup ['A'] s0.environment = none ∧
